@@ -1264,7 +1264,32 @@ impl System {
                     Some((kind, tasks)) => {
                         let mut kinds: Vec<&str> = if tasks.is_empty() { vec![kind] } else { tasks.iter().map(|t| t.1).collect() };
                         kinds.dedup();
-                        format!("server<-{}", kinds.join("+"))
+                        // server-side state of the tasks the frame talks about, and of the sender
+                        let snap = self.server.snapshot();
+                        let wid = self.workers[i as usize].as_ref().map(|w| w.id.as_num()).unwrap_or(0);
+                        let states: Vec<&str> = tasks
+                            .iter()
+                            .map(|(t, _)| match snap.tasks.iter().find(|x| x.id == *t).map(|x| &x.state) {
+                                None => "absent",
+                                Some(tako::verif::TaskStateSnap::Waiting { .. }) => "waiting",
+                                Some(tako::verif::TaskStateSnap::Assigned { .. }) => "assigned",
+                                Some(tako::verif::TaskStateSnap::Prefilled { .. }) => "prefilled",
+                                Some(tako::verif::TaskStateSnap::Retracting { .. }) => "retracting",
+                                Some(tako::verif::TaskStateSnap::Running { .. }) => "running",
+                                Some(tako::verif::TaskStateSnap::RunningMultiNode(_)) => "multinode",
+                                Some(tako::verif::TaskStateSnap::Finished) => "finished",
+                            })
+                            .collect();
+                        let mn = snap
+                            .workers
+                            .iter()
+                            .any(|w| w.id == wid && matches!(w.assignment, tako::verif::AssignmentSnap::Mn { .. }));
+                        format!(
+                            "server<-{} tasks:{}{}",
+                            kinds.join("+"),
+                            states.join("+"),
+                            if mn { " sender-reserved-for-multinode" } else { "" }
+                        )
                     }
                     None => "server<-?".into(),
                 }
